@@ -17,6 +17,9 @@ pub fn swarm() -> Swarm {
         alloc_modes: true,
         stalls: true,
         stall_max_ns: 2_000_000,
+        // a worker held up inside a registration (subscribe) while the coroutine is already
+        // resumed elsewhere and the cancel lands
+        stall_focus: &["src/park.rs", "src/sync/spsc.rs", "src/cancel.rs", "src/sleep.rs"],
         est_len: 5000,
         max_steps: 700_000,
         ..Default::default()
@@ -499,5 +502,83 @@ pub fn run(seed: u64, mut ov: impl FnMut(&mut engine::Cfg)) -> ! {
     // "a coroutine that is not cancelled never observes a cancellation": neither do the coroutines
     // that inherit the pooled stacks of this run's coroutines
     rt::fresh_coroutines_start_clean(3);
+    engine::finish_ok()
+}
+
+// ------------------------------------------------------------------------------------------------
+// aimed (spsc): the receiver's registration (spsc Park::subscribe) is held up on one worker, a send
+// resumes the receiver on another one, it takes its value and waits in the park's destructor for
+// the registration to finish - and the cancel lands exactly there. The wait must not be a
+// cancellation point: the park lives on the coroutine's stack and subscribe is still using it
+// ------------------------------------------------------------------------------------------------
+
+pub fn run_spsc_aimed(seed: u64, mut ov: impl FnMut(&mut engine::Cfg)) -> ! {
+    use may::sync::spsc;
+    let mut r = gen_rng(seed);
+    let nth = r.below(4) as u32;
+    let send_delay = *r.pick(&[20_000u64, 100_000, 400_000]);
+    let cancel_dally = r.below(40) as u32;
+    let mut cfg = swarm_cfg(seed, &Swarm { stalls: false, ..swarm() });
+    cfg.tick_ns = 25;
+    ov(&mut cfg);
+    engine::init(cfg);
+    engine::set_extra("params", engine::json_str(&format!("spsc aimed: nth {} send_delay {} cancel_dally {}", nth, send_delay, cancel_dally)));
+    rt::boot(&RtCfg { workers: 2, pool_cap: 1, stack_size: 0x4000, poll_ns: 10_000_000 });
+    engine::set_diag(|| format!("in flight: {}", OPS.pending()));
+    engine::set_vt_limit(engine::now() + 300_000_000);
+    let parking = Arc::new(AtomicBool::new(false));
+    let (stx, srx) = spsc::channel::<u32>();
+    let waiter = {
+        let wp = parking.clone();
+        unsafe {
+            coroutine::spawn(move || {
+                rt::set_flag(&wp);
+                engine::stall_self_at_site("src/sync/spsc.rs", "load", nth, 1_500_000);
+                let v = srx.recv();
+                engine::disarm_stall();
+                if v != Ok(9) {
+                    violation(&format!("spsc recv returned {:?}", v));
+                }
+            })
+        }
+    };
+    let ctl = {
+        let (wp, co) = (parking.clone(), waiter.coroutine().clone());
+        rt::spawn_actor(Ctx::Thread, "ctl", move || {
+            rt::wait_flag(&wp, usize::MAX);
+            engine::sleep(send_delay);
+            let _ = stx.send(9);
+            for _ in 0..cancel_dally {
+                engine::yield_point();
+            }
+            unsafe { co.cancel() };
+            engine::sleep(20_000_000);
+            drop(stx);
+        })
+    };
+    let o = OPS.begin("join of the receiver".to_string());
+    match waiter.join() {
+        Ok(()) => {}
+        Err(e) => {
+            if !matches!(e.downcast_ref::<generator::Error>(), Some(generator::Error::Cancel)) {
+                violation(&format!("the receiver ended with a foreign panic: {}", crate::panic_msg(&e)));
+            }
+        }
+    }
+    o.done();
+    // the receiver's stack goes back to the pool (capacity 1) and is used again at once
+    for k in 0..3u8 {
+        let h = unsafe {
+            coroutine::spawn(move || {
+                let mut junk = [k.wrapping_mul(37).wrapping_add(0x5A); 2048];
+                coroutine::yield_now();
+                junk[7] = junk[9].wrapping_add(1);
+                std::hint::black_box(&junk);
+                junk[7]
+            })
+        };
+        let _ = h.join();
+    }
+    rt::await_actors(std::slice::from_ref(&ctl), engine::now() + 100_000_000);
     engine::finish_ok()
 }
